@@ -147,10 +147,33 @@ pub fn run(tier: &Tier) -> i32 {
     let forms = all_forms(tier.thorough);
     sweep_forms(&rep, &c, &forms, tier.thorough);
 
+    // (iii) histories
+    let seq_depth = if tier.thorough { 4 } else { 3 };
+    let seq = {
+        use crate::ast::b::*;
+        let ins = |it: Item| match it {
+            Item::Ins(i) => i,
+            _ => unreachable!(),
+        };
+        let focus = vec![
+            ins(bin(BinOp::Add, r16("ax"), r16("bx"))),
+            ins(bin(BinOp::Adc, r16("ax"), direct(W::W, 0x0020))),
+            ins(bin(BinOp::Sub, r8("al"), r8("bl"))),
+            ins(bin(BinOp::Sbb, direct(W::W, 0x0020), r16("bx"))),
+            ins(bin(BinOp::Cmp, r16("ax"), imm(0x1234))),
+            ins(bin(BinOp::Adc, direct(W::B, 0x0021), imm(0x7F))),
+            ins(un(UnOp::Inc, direct(W::B, 0x0020))),
+            ins(un(UnOp::Inc, r16("ax"))),
+            ins(un(UnOp::Dec, r16("cx"))),
+            ins(un(UnOp::Neg, r16("ax"))),
+            ins(un(UnOp::Neg, direct(W::B, 0x0021))),
+        ];
+        crate::seqx::explore_sequences(&rep, &c, &focus, &crate::seqx::context_alphabet(), seq_depth, &crate::seqx::default_inits())
+    };
     let mut cov = Coverage::default();
     cov.exhaustive = true;
-    cov.rule = "every case = (source instruction, pre-state); executed through Preprocessor+Interpreter and compared in full (13 registers, flag word, 1 MB) with the reference ALU. (i) canonical register forms: all 2^16 byte operand pairs x carry-in x 4 prior flag words, word pairs over a boundary lattice squared, INC/DEC/NEG over all 2^8 / 2^16 values; (ii) every operand form of syntax.md (17 address forms x 5 segment choices, labels, immediates, register aliasing) x boundary values x carry-in. distinct_nontrivial = distinct (instruction, pre-state) pairs executed".into();
-    cov.bounds = json!({"byte_pairs": 65536, "word_lattice": wl.len(), "flag_words": 8, "forms": forms.len(), "tier": tier.name()});
+    cov.rule = "every case = (source instruction, pre-state); executed through Preprocessor+Interpreter and compared in full (13 registers, flag word, 1 MB) with the reference ALU. (i) canonical register forms: all 2^16 byte operand pairs x carry-in x 4 prior flag words, word pairs over a boundary lattice squared, INC/DEC/NEG over all 2^8 / 2^16 values; (ii) every operand form of syntax.md (17 address forms x 5 segment choices, labels, immediates, register aliasing) x boundary values x carry-in. distinct_nontrivial = distinct (instruction, pre-state) pairs executed Histories: every sequence of up to 3 (thorough 4) instructions over the property's instructions plus a 16-instruction context alphabet (register, memory, stack and flag traffic), with at least one of the property's instructions, as ONE program on ONE machine and ONE Interpreter object from 3 initial states, compared with the reference after every step (whole memory on every 16th run)".into();
+    cov.bounds = json!({"byte_pairs": 65536, "word_lattice": wl.len(), "flag_words": 8, "forms": forms.len(), "sequence_depth": seq_depth, "sequences": seq.sequences, "sequence_steps": seq.steps, "sequence_whole_memory_audits": seq.audits, "tier": tier.name()});
     cov.assumptions = common_assumptions();
     let cov = finish_cov(&c, cov);
     if cov.extra.get("shapes").and_then(|v| v.as_u64()).unwrap_or(0) < 100 {
